@@ -246,6 +246,7 @@ class FakeTransport(transports._FlowControlMixin, transports.Transport):
             if self.write_fail_armed:
                 self.write_fail_armed = False
                 self.rec.lost_at = self._loop.time()
+                self.rec.lost_seq = self._loop.world.next_seq() if self._loop.world is not None else 0
                 self._force_close(BrokenPipeError(32, "Broken pipe"))
                 return
             if not self.peer_paused:
@@ -328,6 +329,7 @@ class FakeTransport(transports._FlowControlMixin, transports.Transport):
             return
         if isinstance(item, BaseException):
             self.rec.lost_at = self._loop.time()
+            self.rec.lost_seq = self._loop.world.next_seq() if self._loop.world is not None else 0
             self._force_close(item)
         elif item == "eof":
             keep_open = self._protocol.eof_received()
@@ -350,6 +352,7 @@ class FakeTransport(transports._FlowControlMixin, transports.Transport):
         if self.write_fail_armed:
             self.write_fail_armed = False
             self.rec.lost_at = self._loop.time()
+            self.rec.lost_seq = self._loop.world.next_seq() if self._loop.world is not None else 0
             self._force_close(BrokenPipeError(32, "Broken pipe"))
             return
         data = bytes(self._buffer)
